@@ -131,6 +131,8 @@ def generate(rng, tier):
     fail = None
     r = rng.random()
     exc = rng.choice(["BatchFailure"] * 4 + sorted(W.FAIL_EXC) + W.OWN_EXC)
+    if rng.random() < 0.03:
+        exc = "TwoArgError"          # trigger of known finding F11 (rare on purpose)
     if r < 0.12:
         fail = {"k": "all", "where": rng.choice(["ctor", "system"]), "t": rng.randint(0, 3), "exc": exc}
     elif r < 0.25:
@@ -264,7 +266,7 @@ def one_batch(ctx, sc, fail, label):
         st, val = ctx.call(B.batch_run, W.BatchModel, params, **kwargs)
     except SimPoolHang as h:
         ctx.fail("hang", f"batch_run would never return (processes={sc['processes']}, failing execution raised "
-                         f"{(fail or {}).get('exc')}): {h}")
+                         f"{(fail or {}).get('exc')}): {h}", finding="F11" if (fail or {}).get("exc") == "TwoArgError" else None)
     finally:
         B.Pool = old
     after = [(k, repr(v)) for k, v in (params._parameters if isinstance(params, B.ParameterList) else params).items()]
@@ -297,7 +299,8 @@ def one_batch(ctx, sc, fail, label):
                       f"execution #{k} ({sig}) raised {fail.get('exc', 'BatchFailure')} in {fail['where']} with "
                       f"processes={sc['processes']} but batch_run returned normally")
             import ECAgent.Core as _core
-            want_exc = W.FAIL_EXC.get(fail.get("exc", "BatchFailure")) or getattr(_core, fail.get("exc", ""), W.BatchFailure)
+            want_exc = W.FAIL_EXC.get(fail.get("exc", "BatchFailure")) or getattr(_core, fail.get("exc", ""), None) or \
+                getattr(W, fail.get("exc", ""), W.BatchFailure)
             if want_exc is StopIteration:
                 # a StopIteration cannot travel through an iterator protocol as an error; the documented way out is the
                 # PEP 479 conversion, so a RuntimeError reaching the caller counts as "the error reached the caller"
